@@ -48,6 +48,8 @@ class State(object):
         s.env = {}          # environment-model state (clock, stubs ...), values must be immutable or copied by env_copy
         s.nfresh = 0
         s.markkey = None; s.markn = 0
+        s.mark_known = []
+        s.known = {}        # AST id of a decided condition -> (condition, side); valid for the rest of the path
         s.baseline = 0      # object ids below this were allocated before the harness entry
 
     def fork(s):
@@ -61,6 +63,7 @@ class State(object):
         n.env = {k: (list(v) if isinstance(v, list) else dict(v) if isinstance(v, dict) else v) for k, v in s.env.items()}
         n.nfresh = s.nfresh; n.baseline = s.baseline
         n.markkey = s.markkey; n.markn = s.markn
+        n.known = dict(s.known); n.mark_known = list(s.mark_known)
         return n
 
     def wobj(s, oid):
@@ -182,6 +185,16 @@ class Engine(object):
         c = z3.simplify(c)
         if z3.is_true(c): return True
         if z3.is_false(c): return False
+        kid = c.get_id()
+        kn = st.known.get(kid)
+        if kn is not None:
+            return kn[1]
+        r_ = s._decide(st, c)
+        st.known[kid] = (c, r_)
+        st.mark_known.append(kid)
+        return r_
+
+    def _decide(s, st, c):
         if st.pending:
             s._mark(st)
             d = st.pending.pop(0)
@@ -243,7 +256,7 @@ class Engine(object):
         fr = st.frames[-1]
         key = (len(st.frames), id(fr.code), fr.ip, st.steps)
         if st.markkey != key:
-            st.markkey = key; st.markn = len(st.decisions)
+            st.markkey = key; st.markn = len(st.decisions); st.mark_known = []
         return st.markn
 
     def _sibling(s, st, d, model):
@@ -251,6 +264,9 @@ class Engine(object):
         sib = st.fork()
         sib.pending = st.decisions[k:] + [d]
         del sib.decisions[k:]
+        for kid in st.mark_known:          # the sibling re-executes this instruction: forget its cached decisions
+            sib.known.pop(kid, None)
+        sib.mark_known = []
         sib.markkey = None
         sib.model = model
         s.rewind(sib)
@@ -483,7 +499,10 @@ class Engine(object):
                 return z3.Extract(8 * i + 7, 8 * i, x) if x.size() > 8 else x
             if z3.is_fp(x):
                 return z3.Extract(8 * i + 7, 8 * i, z3.fpToIEEEBV(x))
-            raise Inconclusive("byte of a pointer used as data")
+            # numeric address bits are not modelled: an unknown byte (over-approximation, noted)
+            st = s.cur
+            s.ubnote(st, 'byte of a stored pointer used as data (treated as an unknown byte)')
+            return s.fresh(st, 8, 'pb')
         raise Violation('uninit', "read of uninitialised byte")
 
     def load_symoff(s, st, p, cls, n, w):
